@@ -89,6 +89,10 @@ def gen_layout(rng, malformed=False):
         deps.add(F(rng.randrange(lo * 8, hi * 8 + 1), 8))
     deps.add(F(0))
     deps.add(F(10 ** 9))
+    # late departures: around and beyond the end of the last element (model MaxTime = epoch + 200 years)
+    for late in (6307200000 - 3600, 6307200000 - 1, 6307200000, 6307200000 + 61, 7683828987):
+        if rng.random() < 0.5:
+            deps.add(F(late))
     if rng.random() < 0.1:
         deps.add(F(-5))
     deps = sorted(d for d in deps if d >= -10)
